@@ -215,8 +215,9 @@ def gen_world(rng, pr):
             # of a simplification (as_expression() / early construction raise and must leave no trace).
             if not ovf_nodes or rng.random() < 0.3:
                 if rng.random() < 0.6 or not pr.ovf_mid:
-                    c = add({"op": "Constant", "value": rng.choice([1000, 800.0, 1000])})
-                    ovf_nodes.append(add({"op": "Exponential", "base": rng.choice([math.e, 10, 2.0])}, [c]))
+                    base_, expo = rng.choice([(math.e, 1000), (10, 1000), (2.0, 2000), (math.e, 800.0), (10, 400.0)])
+                    c = add({"op": "Constant", "value": expo})
+                    ovf_nodes.append(add({"op": "Exponential", "base": base_}, [c]))
                 else:
                     # representable itself, but its square (quotient rule, chain rule) is not
                     kind = rng.random()
